@@ -13,14 +13,16 @@ MANIFEST = {
                 "listeners/emitters, their own included, arbitrarily nested), all numbers of objects and every fuel of the evaluator, "
                 "about the Lean model of Callback.cpp: emit_refines (invocation log = log of the snapshot specification), "
                 "no_use_after_free, never_after_disconnect_or_destroy (state level) and never_invoked_unless_listed (whole runs, "
-                "through a run-time monitor shown never to fire), bookkeeping_consistent, fuel_irrelevant, node_is_ghost; all proved "
-                "in full (no partial statement). The model is tied to the current Callback.hpp/.cpp on every run by executing identical op lines on both "
+                "through a run-time monitor shown never to fire), bookkeeping_consistent, listener_side_exact (listener-side lists = the live connections in order "
+                "of birth), terminates (finite script tables need finite fuel) and fuel_irrelevant, node_is_ghost; all proved in "
+                "full (no partial statement). The model is tied to the current Callback.hpp/.cpp on every run by executing identical op lines on both "
                 "(every small program up to renaming + random programs, heap objects under ASan/UBSan, white-box bookkeeping of "
                 "both sides after every top-level action); an independent Python implementation of the snapshot specification "
                 "predicts every invocation log and the bookkeeping of the real code.",
         "note": "Trusted: Lean kernel + the three standard axioms; hand translation of Callback.cpp into the model (validated by the "
                 "correspondence run, not proved): pointers are ids that are never reused, Map = key list + lookup function, the "
-                "emission iterator is an index into the slot list, an activation constructed without signal data is inert and "
+                "emission iterator is an index into the slot list (or the `end` captured for a list empty at construction), an "
+                "activation constructed without signal data is inert and "
                 "pushes no frame, the identity (address) of a List node is a number from an allocation counter (theorem "
                 "node_is_ghost: it influences nothing); one model of `emit`/`connect`/`disconnect` stands for the nine arity "
                 "overloads, which differ in the argument list only (the harness uses the arity-0 overloads for signal 0, the "
